@@ -119,9 +119,13 @@ Definition run_case (line : str) : str :=
           else match pxin d (skipn 18 rest) with
                | None => s2l "BADCASE"
                | Some x =>
-                   if str_eqb op (s2l "eos") then sres (fun r => sx (fst r) ++ tab :: show_bool (snd r)) (eos_json x)
-                   else if str_eqb op (s2l "rocks") then sres (fun l => joinc ";" (map (fun c => joinc "," (map show_z c)) l)) (rocks_cells x)
-                   else if str_eqb op (s2l "srcs") then sres (fun l => joinc "," (map (fun s => sx (fst s) ++ ":" :: scell (snd s)) l)) (sources x)
+                   let l_eos := sres (fun r => sx (fst r) ++ tab :: show_bool (snd r)) (eos_json x) in
+                   let l_rocks := sres (fun l => joinc ";" (map (fun c => joinc "," (map show_z c)) l)) (rocks_cells x) in
+                   let l_srcs := sres (fun l => joinc "," (map (fun s => sx (fst s) ++ ":" :: scell (snd s)) l)) (sources x) in
+                   if str_eqb op (s2l "eos") then l_eos
+                   else if str_eqb op (s2l "rocks") then l_rocks
+                   else if str_eqb op (s2l "srcs") then l_srcs
+                   else if str_eqb op (s2l "exp") then l_eos ++ s2l " | " ++ l_rocks ++ s2l " | " ++ l_srcs
                    else s2l "BADCASE"
                end
       end
